@@ -221,23 +221,45 @@ template <class Ad> void mathfn(const char* name, uint64_t seed, int n) {
   }
 }
 
+template <class Q, class = void> struct has_unit : std::false_type {};
+template <class Q> struct has_unit<Q, std::void_t<decltype(Q::Unit())>> : std::true_type {};
+// every constructor form that takes the components themselves - a component list, a std::array, the raw shape; with the standard unit for
+// dimensional types - must store exactly those numbers (detected per type: absent forms are skipped)
+template <int N, class T> struct RawOf { using type = T; };
+template <class T> struct RawOf<2, T> { using type = PhQ::PlanarVector<T>; }; template <class T> struct RawOf<3, T> { using type = PhQ::Vector<T>; };
+template <class T> struct RawOf<6, T> { using type = PhQ::SymmetricDyad<T>; }; template <class T> struct RawOf<9, T> { using type = PhQ::Dyad<T>; };
+template <class Q, class T, size_t... I> constexpr bool list_constructible(std::index_sequence<I...>) { return std::is_constructible<Q, decltype((void)I, T())...>::value; }
+template <class Q, class T, class U, size_t... I> constexpr bool list_unit_constructible(std::index_sequence<I...>) { return std::is_constructible<Q, decltype((void)I, T())..., U>::value; }
+template <class Q, class T, size_t... I> Q from_list(const T* c, std::index_sequence<I...>) { return Q(c[I]...); }
+template <class Q, class T, class U, size_t... I> Q from_list_unit(const T* c, U u, std::index_sequence<I...>) { return Q(c[I]..., u); }
+template <class Q, class T, int N> void ctor_forms(const T* c, long& tried, long& bad) {
+  using Raw = typename RawOf<N, T>::type; using Seq = std::make_index_sequence<N>; T got[9];
+  auto chk = [&](const Q& q) { tried++; getc(q, got); for (int i = 0; i < N; i++) if (!biteq(got[i], c[i])) { bad++; break; } };
+  std::array<T, N> arr; for (int i = 0; i < N; i++) arr[i] = c[i];
+  if constexpr (N > 1) { Raw raw(arr);
+    if constexpr (!std::is_same<Q, Raw>::value) {
+      if constexpr (has_unit<Q>::value) { using U = decltype(Q::Unit()); if constexpr (std::is_constructible<Q, Raw, U>::value) chk(Q(raw, Q::Unit())); if constexpr (std::is_constructible<Q, std::array<T, N>, U>::value) chk(Q(arr, Q::Unit()));
+        if constexpr (list_unit_constructible<Q, T, U>(Seq{})) chk(from_list_unit<Q, T, U>(c, Q::Unit(), Seq{})); }
+      else { if constexpr (std::is_constructible<Q, Raw>::value) chk(Q(raw)); if constexpr (std::is_constructible<Q, std::array<T, N>>::value) chk(Q(arr)); if constexpr (list_constructible<Q, T>(Seq{})) chk(from_list<Q, T>(c, Seq{})); } }
+    else { chk(Q(arr)); chk(from_list<Q, T>(c, Seq{})); Q z = Q::Zero(); z = arr; chk(z); } }
+  else { if constexpr (has_unit<Q>::value) { using U = decltype(Q::Unit()); if constexpr (std::is_constructible<Q, T, U>::value) chk(Q(c[0], Q::Unit())); } else { if constexpr (std::is_constructible<Q, T>::value) chk(Q(c[0])); } }
+}
 // ---- C17: mutators and accessors expose exactly the stored value (full-precision values of the numeric type) ----
 template <class Ad> void mutators(const char* name, uint64_t seed, int n) {
-  using Q = typename Ad::Q; using T = typename Ad::T; constexpr int N = Ad::N; std::mt19937_64 g(seed * 97 + N); long set_bad = 0, mut_bad = 0, ctor_bad = 0, cnt = 0; long double wit = 0;
+  using Q = typename Ad::Q; using T = typename Ad::T; constexpr int N = Ad::N; std::mt19937_64 g(seed * 97 + N); long set_bad = 0, mut_bad = 0, ctor_bad = 0, cnt = 0, forms_tried = 0, forms_bad = 0; long double wit = 0;
   auto rnd = [&]() { T m = (T)(1.0L + (long double)(g() >> 11) / (long double)(1ULL << 53)); if (sizeof(T) > 8) m += (T)std::ldexp((long double)(g() & 2047), -63); int span = std::numeric_limits<T>::max_exponent - 2; return std::ldexp(m, (int)(g() % (unsigned)(2 * span)) - span) * ((g() & 1) ? 1 : -1); };
   for (int t = 0; t < n; t++) { T c[9], d[9]; for (int i = 0; i < N; i++) { c[i] = rnd(); d[i] = rnd(); }
     Q q = Ad::make(c); T got[9]; getc(q, got); for (int i = 0; i < N; i++) if (!biteq(got[i], c[i])) ctor_bad++;
     if constexpr (has_set<Q, T>::value) { Q src = Ad::make(d); q.SetValue(src.Value()); getc(q, got); for (int i = 0; i < N; i++) if (!biteq(got[i], d[i])) { if (!set_bad) wit = (long double)d[i]; set_bad++; } }
     if constexpr (has_mutable<Q, T>::value) { Q src = Ad::make(c); q.MutableValue() = src.Value(); getc(q, got); for (int i = 0; i < N; i++) if (!biteq(got[i], c[i])) mut_bad++; }
+    ctor_forms<Q, T, N>(c, forms_tried, forms_bad);
     cnt++; }
-  printf("{\"e\":\"Mutator\",\"type\":\"%s\",\"num\":\"%s\",\"n\":%ld,\"ctor_bad\":%ld,\"set_bad\":%ld,\"mutable_bad\":%ld,\"has_set\":%d,\"has_mutable\":%d,\"witness\":\"%La\"}\n", name, NumName<T>::c, cnt, ctor_bad, set_bad, mut_bad,
-         (int)has_set<Q, T>::value, (int)has_mutable<Q, T>::value, wit);
+  printf("{\"e\":\"Mutator\",\"type\":\"%s\",\"num\":\"%s\",\"n\":%ld,\"ctor_bad\":%ld,\"set_bad\":%ld,\"mutable_bad\":%ld,\"has_set\":%d,\"has_mutable\":%d,\"forms_tried\":%ld,\"forms_bad\":%ld,\"witness\":\"%La\"}\n", name, NumName<T>::c, cnt, ctor_bad, set_bad, mut_bad,
+         (int)has_set<Q, T>::value, (int)has_mutable<Q, T>::value, forms_tried, forms_bad, wit);
 }
 
 // ---- C15: composite printed / serialised forms ----
 inline std::string jesc(const std::string& s) { std::string o; char b[8]; for (unsigned char c : s) { if (c == '"' || c == '\\') { o += '\\'; o += (char)c; } else if (c < 0x20) { snprintf(b, 8, "\\u%04x", c); o += b; } else o += (char)c; } return o; }
-template <class Q, class = void> struct has_unit : std::false_type {};
-template <class Q> struct has_unit<Q, std::void_t<decltype(Q::Unit())>> : std::true_type {};
 // replace, in order, the expected number strings by '#' and the abbreviation by '@'; numbers_ok iff the numeric tokens of the
 // text are exactly the expected strings in declared component order
 inline std::string templ(const std::string& text, const std::vector<std::string>& nums, const std::string& abbr, bool& numbers_ok) {
